@@ -387,7 +387,7 @@ pub fn tree_strategy() -> BoxedStrategy<Vec<TreeObj>> {
         1 => Just(ObjKind::Fifo),
         1 => Just(ObjKind::Chr),
     ];
-    let obj = (prop_oneof![2 => Just(255u8), 3 => any::<u8>()], 0u8..6, kind, 0u8..3).prop_map(|(parent, name, kind, owner)| TreeObj { parent, name, kind, owner });
+    let obj = (prop_oneof![2 => Just(255u8), 3 => any::<u8>()], name_idx(), kind, 0u8..3).prop_map(|(parent, name, kind, owner)| TreeObj { parent, name, kind, owner });
     proptest::collection::vec(obj, 0..12).boxed()
 }
 
@@ -408,19 +408,19 @@ pub fn op_strategy() -> BoxedStrategy<POp> {
         1 => (0u32..0o10000, 0u64..70000).prop_map(|(m, s)| SetWhat::ModeAndSize(m, s)),
     ];
     prop_oneof![
-        8 => (any::<u16>(), 0u8..6).prop_map(|(p, name)| POp::Lookup { p, name }),
+        8 => (any::<u16>(), name_idx()).prop_map(|(p, name)| POp::Lookup { p, name }),
         1 => (any::<u16>(), 1u8..3).prop_map(|(n, count)| POp::Forget { n, count }),
         3 => (any::<u16>(), proptest::option::of(any::<u16>())).prop_map(|(n, h)| POp::Getattr { n, h }),
         5 => (any::<u16>(), proptest::option::of(any::<u16>()), what).prop_map(|(n, h, what)| POp::Setattr { n, h, what }),
-        5 => (any::<u16>(), 0u8..6, open_flags(), 0u32..0o10000, prop_oneof![Just(0u32), Just(0o22), Just(0o77), Just(0o777)], 0u8..3)
+        5 => (any::<u16>(), name_idx(), open_flags(), 0u32..0o10000, prop_oneof![Just(0u32), Just(0o22), Just(0o77), Just(0o777)], 0u8..3)
             .prop_map(|(p, name, flags, mode, umask, caller)| POp::Create { p, name, flags: flags | if mode & 1 == 1 { libc::O_EXCL as u32 } else { 0 }, mode, umask, caller }),
-        3 => (any::<u16>(), 0u8..6, 0u32..0o10000, Just(0u32), 0u8..3).prop_map(|(p, name, mode, umask, caller)| POp::Mkdir { p, name, mode, umask, caller }),
-        2 => (any::<u16>(), 0u8..6, 0u8..4, 0u32..0o1000, prop_oneof![Just(0u32), Just(0o22)], 0u8..3).prop_map(|(p, name, kind, mode, umask, caller)| POp::Mknod { p, name, kind, mode, umask, caller }),
-        2 => (any::<u16>(), 0u8..6, any::<u8>(), 0u8..3).prop_map(|(p, name, target, caller)| POp::Symlink { p, name, target, caller }),
-        2 => (any::<u16>(), any::<u16>(), 0u8..6).prop_map(|(n, p, name)| POp::Link { n, p, name }),
-        3 => (any::<u16>(), 0u8..6).prop_map(|(p, name)| POp::Unlink { p, name }),
-        2 => (any::<u16>(), 0u8..6).prop_map(|(p, name)| POp::Rmdir { p, name }),
-        4 => (any::<u16>(), 0u8..6, any::<u16>(), 0u8..6, 0u8..4).prop_map(|(p1, n1, p2, n2, flags)| POp::Rename { p1, n1, p2, n2, flags }),
+        3 => (any::<u16>(), name_idx(), 0u32..0o10000, Just(0u32), 0u8..3).prop_map(|(p, name, mode, umask, caller)| POp::Mkdir { p, name, mode, umask, caller }),
+        2 => (any::<u16>(), name_idx(), 0u8..4, 0u32..0o1000, prop_oneof![Just(0u32), Just(0o22)], 0u8..3).prop_map(|(p, name, kind, mode, umask, caller)| POp::Mknod { p, name, kind, mode, umask, caller }),
+        2 => (any::<u16>(), name_idx(), any::<u8>(), 0u8..3).prop_map(|(p, name, target, caller)| POp::Symlink { p, name, target, caller }),
+        2 => (any::<u16>(), any::<u16>(), name_idx()).prop_map(|(n, p, name)| POp::Link { n, p, name }),
+        3 => (any::<u16>(), name_idx()).prop_map(|(p, name)| POp::Unlink { p, name }),
+        2 => (any::<u16>(), name_idx()).prop_map(|(p, name)| POp::Rmdir { p, name }),
+        4 => (any::<u16>(), name_idx(), any::<u16>(), name_idx(), 0u8..4).prop_map(|(p1, n1, p2, n2, flags)| POp::Rename { p1, n1, p2, n2, flags }),
         6 => (any::<u16>(), open_flags()).prop_map(|(n, flags)| POp::Open { n, flags }),
         4 => (any::<u16>(), small.clone(), small.clone()).prop_map(|(h, off, size)| POp::Read { h, off, size }),
         6 => (any::<u16>(), small.clone(), prop_oneof![Just(0u16), Just(1), Just(4096), 0u16..9000], any::<u32>()).prop_map(|(h, off, len, seed)| POp::Write { h, off, len, seed }),
